@@ -97,6 +97,7 @@ PROBES = probes()
 def gen_case(seed, idx, tier):
     c = drv.Case(idx)
     ex = lists_for(tier)
+    subgroup = set()
     if idx < 2 * len(ex):
         order = [UNIVERSE[i] for i in ex[idx // 2]]
         abbr = idx % 2 == 0
@@ -106,12 +107,23 @@ def gen_case(seed, idx, tier):
         k = rng.randint(3, 6)
         order = rng.sample(UNIVERSE, k)
         abbr = rng.random() < 0.5
+        # some of the keys open a sub-group (an argument whose "value" is another handler with the argument -z): they live in
+        # the same key space and obey the same lookup rules
+        if rng.random() < 0.4:
+            subgroup = set(i for i in range(k) if rng.random() < 0.35)
     flags = 0 if abbr else argh.HF["noAbbr"]
-    defs = "".join("AT i%d %s %s\n" % (i, hx(sp), hx("d")) for i, sp in enumerate(order))
-    c.meta.update(order=order, abbr=abbr, probes=[])
+    defs = "".join(("SGT i%d %s\n" % (i, hx(sp))) if i in subgroup else ("AT i%d %s %s\n" % (i, hx(sp), hx("d"))) for i, sp in enumerate(order))
+    c.meta.update(order=order, abbr=abbr, probes=[], subgroup=sorted(subgroup))
+    acc, so, lo = model(order)
     for word, kind, key in PROBES:
         c.meta["probes"].append((word, kind, key))
-        c.add("c05", lambda sid, w=word: "S %s probe\nF %d\n%sV %s %s %s\nR\n" % (sid, flags, defs, hx("prog"), hx(w), hx("7")))
+        # the value follows the key directly; behind a sub-group key it is given to the sub-group's argument -z
+        if kind == "short":
+            cand = [so[key]] if key in so else []
+        else:
+            cand = [lo[key]] if key in lo else [i for l, i in lo.items() if l.startswith(key)]
+        tail = ["-z", "7"] if cand and cand[(idx + len(key)) % len(cand)] in subgroup else ["7"]
+        c.add("c05", lambda sid, w=word, t=tail: "S %s probe\nF %d\n%sV %s\nR\n" % (sid, flags, defs, " ".join(hx(x) for x in ["prog", w] + t)))
     return c
 
 
@@ -150,7 +162,7 @@ def judge(c, results, rep):
         changed = [n for n, v in r.slots.items() if v != "0"]
         if owner is None:
             if r.status == "ok":
-                rep.viol("lookup|%s|accepted" % cls, "specs %r abbr=%s probe %s accepted, slots %r" % (order, abbr, word, r.slots), [text])
+                rep.viol("lookup|%s|accepted" % cls, "specs %r (sub-group keys: %r) abbr=%s probe %s accepted, slots %r" % (order, c.meta.get("subgroup"), abbr, word, r.slots), [text])
             elif changed:
                 rep.viol("lookup|%s|slot-changed" % cls, "specs %r probe %s rejected but slots %r" % (order, word, r.slots), [text])
         else:
@@ -159,7 +171,9 @@ def judge(c, results, rep):
                 rep.viol("lookup|%s|rejected" % cls, "specs %r abbr=%s probe %s should select %r: %s %s" % (order, abbr, word, order[owner], r.etype, r.ewhat), [text])
             elif changed != [want] or r.slots.get(want) != "7":
                 rep.viol("lookup|%s|wrong-argument" % cls, "specs %r abbr=%s probe %s should set %s (%r), slots %r" % (order, abbr, word, want, order[owner], r.slots), [text])
-    rep.sample("specs=%r abbr=%s accepted=%r" % (order, abbr, acc))
+    if c.meta.get("subgroup"):
+        rep.stat("cases_with_sub_group_keys")
+    rep.sample("specs=%r sub-groups=%r abbr=%s accepted=%r" % (order, c.meta.get("subgroup"), abbr, acc))
 
 
 def finalize(chk):
